@@ -122,8 +122,13 @@ def check(prop, spec, tier, seed, replay=None):
                 if tier == "quick" and inst.get("tier") == "thorough":
                     continue
                 cfg = inst["cfg_quick"] if (tier == "quick" and "cfg_quick" in inst) else inst["cfg"]
+                want_cov = tier == "thorough" and not inst.get("expect_violation")
                 r = tlc.model_check(inst["module"], cfg, scratch, timeout=inst.get("timeout", 3000),
-                                    simulate=inst.get("simulate"))
+                                    simulate=inst.get("simulate"), coverage=want_cov)
+                if want_cov:      # vacuity control: every action of the instance must have been taken
+                    dead = sorted(a for a, n in r["coverage"].items() if n == 0 and a not in inst.get("may_be_idle", []))
+                    if dead:
+                        raise tlc.MachineryError("vacuous model-checking run %s/%s: actions never taken: %s" % (inst["module"], cfg, dead))
                 if r["violated"] != bool(inst.get("expect_violation", False)):
                     if inst.get("expect_violation"):
                         raise tlc.MachineryError("sensitivity twin %s/%s was NOT rejected by TLC" % (inst["module"], cfg))
@@ -135,7 +140,8 @@ def check(prop, spec, tier, seed, replay=None):
                     mc_trans += r["transitions"]
                 mc_runs.append({"module": inst["module"], "cfg": cfg, "states": r["states"],
                                 "transitions": r["transitions"], "wall_s": round(r["wall_s"], 1),
-                                "twin_rejected": bool(inst.get("expect_violation"))})
+                                "twin_rejected": bool(inst.get("expect_violation")),
+                                "action_counts": r.get("coverage", {})})
             # unbounded lemmas with Apalache (thorough tier only)
             for ap in spec.get("apalache", []) if tier == "thorough" else []:
                 import subprocess
